@@ -8,6 +8,7 @@ mod ext_array;
 mod ext_schema;
 mod model;
 mod ops;
+mod ops_io;
 mod val;
 
 use std::collections::HashMap;
